@@ -71,6 +71,13 @@ def instances(pid, n=30):
                 lines = [text(rng, WILD, 0, 20) for _ in range(rng.randint(1, 4))]
                 lines = [l for l in lines if l != '``'] or ['y']
                 out.append(('``\n' + '\n'.join(lines) + '\n``', 0, '<pre><code>%s</code></pre>' % esc('\n'.join(lines)), 'theorem-instance:C08_fenced_code_block'))
+        elif pid == 'C08q':    # C08_quote_paragraph_document, C08_code_then_paragraph
+            line = first_then(rng, 0, 14).rstrip() or 'x'
+            out.append(('""\n' + line + '\n""', 0, '<blockquote><p>%s</p></blockquote>' % esc(line), 'theorem-instance:C08_quote_paragraph_document'))
+            lines = [text(rng, WILD, 0, 16) for _ in range(rng.randint(1, 3))]
+            lines = [l for l in lines if l != '``'] or ['y']
+            out.append(('``\n' + '\n'.join(lines) + '\n``\n\n' + line, 0,
+                        '<pre><code>%s</code></pre>\n<p>%s</p>' % (esc('\n'.join(lines)), esc(line)), 'theorem-instance:C08_code_then_paragraph'))
         elif pid == 'C17':     # C17_escaped_emphasis_is_literal, in a paragraph
             pre, body, post = first_then(rng, 0, 10), solid(rng, SAFE, 1, 12), text(rng, SAFE, 0, 10)
             src = pre + '\\*' + body + '*' + post
